@@ -260,6 +260,17 @@ func init() {
 				}
 				pairs = append(pairs, [2]ugo.Object{a, b})
 			}
+			// wrapper types: RuntimeError wraps an Error, SyncMap guards a Map — oracle only
+			// (the model treats them as the wrapped value)
+			e1 := &ugo.Error{Name: "E1"}
+			wrappers := []ugo.Object{e1, &ugo.RuntimeError{Err: e1}, &ugo.RuntimeError{Err: e1}, &ugo.Error{Name: "E1"},
+				&ugo.SyncMap{Value: ugo.Map{"a": ugo.Int(1)}}, &ugo.SyncMap{Value: ugo.Map{}}, ugo.Map{"a": ugo.Int(1)}, ugo.Map{},
+				ugo.Array{&ugo.RuntimeError{Err: e1}}, ugo.Array{e1}, ugo.Undefined, ugo.Int(1)}
+			for _, a := range wrappers {
+				for _, b := range wrappers {
+					opsOracle(c, vm, a, b)
+				}
+			}
 			for _, p := range pairs {
 				a, b := p[0], p[1]
 				opsOracle(c, vm, a, b)
